@@ -636,7 +636,9 @@ class AsyncClient(base_client.BaseClient):
                 self.queue.task_done()
                 packets = []
             else:
-                while True:
+                # a payload with more packets than the server accepts would
+                # be discarded as a whole, the rest goes in the next one
+                while len(packets) < payload.Payload.max_decode_packets:
                     try:
                         packets.append(self.queue.get_nowait())
                     except self.queue.Empty:
